@@ -183,8 +183,10 @@ func (dec *ttlvReader) validate() error {
 	if len(dec.buf) < 8 {
 		return Errorf("TTLV header too short")
 	}
-	if len(dec.buf[8:]) < dec.paddedLen() {
-		return Errorf("TTLV value too short. Got %d bytes, expected %d", len(dec.buf[8:]), dec.paddedLen())
+	// The declared length is an unsigned 32-bit field: compare it in 64 bits, as it may not fit
+	// an int on 32-bit platforms (a negative length would pass the check and panic in value()).
+	if padded := paddedLen64(dec.declaredLen()); uint64(len(dec.buf[8:])) < padded {
+		return Errorf("TTLV value too short. Got %d bytes, expected %d", len(dec.buf[8:]), padded)
 	}
 	if ty := dec.Type(); ty > TypeInterval || ty == 0 {
 		return Errorf("invalid TTLV type %s", ty)
@@ -210,11 +212,24 @@ func (dec *ttlvReader) Type() Type {
 	return Type(dec.buf[3])
 }
 
-func (dec *ttlvReader) len() int {
+// declaredLen returns the length field of the current item's header, as found on the wire.
+func (dec *ttlvReader) declaredLen() uint32 {
 	if len(dec.buf) == 0 {
 		return 0
 	}
-	return int(binary.BigEndian.Uint32(dec.buf[4:8]))
+	return binary.BigEndian.Uint32(dec.buf[4:8])
+}
+
+// paddedLen64 returns l rounded up to a multiple of 8, without overflow on any platform.
+func paddedLen64(l uint32) uint64 {
+	return (uint64(l) + 7) &^ 7
+}
+
+// len returns the length of the current item's value. It must only be called on a validated
+// reader: validate() guarantees that the declared length is not greater than len(dec.buf)-8,
+// so the conversion to int cannot overflow.
+func (dec *ttlvReader) len() int {
+	return int(dec.declaredLen())
 }
 
 func (dec *ttlvReader) value() []byte {
